@@ -91,6 +91,16 @@ def run(ck):
                     off = r.next_offset
                 recs.append({"t": "pages", "limit": lim, "total": len(ref.dpts), "ended": ended, "pages": pages})
                 ex.append(f"list_dpts(main={main}, text={text!r}) paged with limit {lim}: {len(pages)} page(s), ended={ended}")
+        # ---- (a') filters given together: the listing is the intersection of the two listings
+        full = go(tools.list_dpts(DptFilter(limit=-1)))
+        pos = {(s_.dpt, s_.value_type): i + 1 for i, s_ in enumerate(full.dpts)}
+
+        def listing(**kw):
+            return [pos.get((s_.dpt, s_.value_type), 0) for s_ in go(tools.list_dpts(DptFilter(limit=-1, **kw))).dpts]
+        for main in mains if ck.tier != "quick" else mains[::3] + [1, 5, 9, 14, 20]:
+            for text in texts[2:]:
+                recs.append({"t": "conj", "both": listing(main=main, text=text), "a": listing(main=main), "b": listing(text=text)})
+                ex.append(f"list_dpts(main={main}, text={text!r}) against list_dpts(main={main}) and list_dpts(text={text!r})")
         # ---- (b) single results
         m = Mock()
         m.start = AsyncMock()
